@@ -3,7 +3,8 @@
    operation, one select commit, one Dead() read) or of the environment (caller cancellation,
    connection becoming ready, Run returning, Close).  The model mirrors the code AFTER the repairs
    `fix: pool: ...` (release on cancel during creation, send under the lock in transfer, stuck
-   channel taken under the lock, Dead() check on every hand-out path).
+   channel taken under the lock, Dead() check on every hand-out path, connection creation under c.mu
+   with a `closed` re-check so that Close never waits concurrently with Supervisor.Go).
    Decisions that are plain integer comparisons in the source are taken from Gen/PoolDecide.v,
    regenerated from /repo on every run.
    Definitions only; proofs are in Proof/Pool.v. *)
@@ -50,7 +51,7 @@ Record state := {
 Inductive event :=
 | EStart (x : nat) | EStartClosed (x : nat)
 | EPop (x : nat) (c : Z) | ECheck (x : nat) (alive : bool)
-| ENew (x : nat) (t : Z) | ECreate (x : nat) (c : Z)
+| ENew (x : nat) (t : Z) | ENewRefused (x : nat) | ECreate (x : nat) (c : Z)
 | ENewReady (x : nat) | ENewCancel (x : nat) | ENewClosed (x : nat) | ENewDead (x : nat)
 | EReg (x : nat) (k : Z)
 | EWaitGot (x : nat) (c : Z) | EWaitStuck (x : nat) | EWaitCancel (x : nat) | EWaitClosed (x : nat)
@@ -175,8 +176,13 @@ Definition step (st : state) (e : event) : option state :=
       | _ => None end
   | ENew x t =>                                   (* 2nd case: total++ under c.mu *)
       match s_pc st x, s_free st with
-      | PRetry, [] => if can_create_go (s_max st) (s_total st) && Z.eqb t (s_total st + 1)
+      | PRetry, [] => if can_create_go (s_max st) (s_total st) && negb (s_closedf st) && Z.eqb t (s_total st + 1)
                       then Some (set_pc (count_new st x) x PNew) else None
+      | _, _ => None end
+  | ENewRefused x =>                              (* 2nd case, but Close has begun: return errDCIsClosed *)
+      match s_pc st x, s_free st with
+      | PRetry, [] => if can_create_go (s_max st) (s_total st) && s_closedf st
+                      then Some (set_pc st x PIdle) else None
       | _, _ => None end
   | ECreate x c =>
       match s_pc st x, s_conns st c with
